@@ -163,9 +163,6 @@ Proof.
   apply hex_digits_lower. unfold TWO64 in Hx. change (16 ^ 32) with 340282366920938463463374607431768211456. lia.
 Qed.
 
-Theorem format_id_not_a_key x : valid_name (format_id x) = false.
-Proof. reflexivity. Qed.
-
 Theorem format_id_not_temp x : x < TWO64 -> format_id x <> TEMP_SUBDIR.
 Proof.
   intros Hx H. destruct (format_id_shape x Hx) as (ds & Heq & Hlen & Hall).
@@ -176,12 +173,12 @@ Proof.
   inversion Hall as [|? ? Hc _]; subst. vm_compute in Hc. discriminate.
 Qed.
 
-(** Name validation looks at the first byte only. *)
-Theorem valid_name_spec name :
-  valid_name name = true <->
+(** Name validation: first byte, and no separator anywhere. *)
+Lemma valid_first_byte_spec name :
+  valid_name_first_byte name = true <->
   exists a rest, name = String a rest /\ a <> "."%char /\ a <> "/"%char /\ a <> "\"%char.
 Proof.
-  destruct name as [|a rest]; cbn [valid_name].
+  destruct name as [|a rest]; cbn [valid_name_first_byte].
   - split; [discriminate|]. intros (a & r & H & _). discriminate.
   - unfold RESERVED_FIRST_BYTES. cbn [existsb]. rewrite orb_false_r.
     split.
@@ -193,3 +190,24 @@ Proof.
       repeat split; apply N.eqb_neq; intros He;
         apply (f_equal ascii_of_N) in He; rewrite ascii_N_embedding in He; cbn in He; congruence.
 Qed.
+
+Fixpoint chars_of (s : string) : list ascii :=
+  match s with EmptyString => [] | String c s' => c :: chars_of s' end.
+
+Lemma has_slash_spec s : has_slash s = false <-> ~ In "/"%char (chars_of s).
+Proof.
+  induction s as [|c s IH]; cbn [has_slash chars_of In]; [tauto|].
+  destruct (Ascii.eqb_spec c "/"%char); cbn; [subst; split; [discriminate|intros H; exfalso; apply H; auto]|].
+  rewrite IH. split; intros H; [intros [Hc|Hc]; [congruence|auto]|intros Hc; apply H; auto].
+Qed.
+
+Theorem valid_name_spec name :
+  valid_name name = true <->
+  (exists a rest, name = String a rest /\ a <> "."%char /\ a <> "/"%char /\ a <> "\"%char) /\
+  ~ In "/"%char (chars_of name).
+Proof.
+  unfold valid_name. rewrite andb_true_iff, negb_true_iff, valid_first_byte_spec, has_slash_spec. tauto.
+Qed.
+
+Theorem format_id_not_a_key x : valid_name (format_id x) = false.
+Proof. reflexivity. Qed.
